@@ -14,6 +14,7 @@ inductive Name
   | tupleElem (i : Nat)       -- `__tuple_elem_i`
   | mapValue                  -- `__map_value`
   | setElem                   -- `__set_elem`
+  | setSrc                    -- `__set_src`: a reference to the collection a set pattern is matched against
   | field (f : FieldName)     -- a destructured struct field: `__assert_struct_field_<field>`
   | rootValue                 -- `__assert_struct_value`: a reference to the asserted expression
   deriving DecidableEq, Repr, Inhabited
@@ -23,6 +24,7 @@ def Name.render : Name → String
   | .tupleElem i => "__tuple_elem_" ++ toString i
   | .mapValue => "__map_value"
   | .setElem => "__set_elem"
+  | .setSrc => "__set_src"
   | .field (.ident i) => "__assert_struct_field_" ++ i.unraw
   | .field (.index n) => "__assert_struct_field_" ++ toString n
   | .rootValue => "__assert_struct_value"
